@@ -163,7 +163,7 @@ class SourceTypes:
                     if depth == 0:
                         break
                 j += 1
-            body = clean[i + 1:j]
+            body = self._strip_attrs(clean[i + 1:j])
             items = self._split_items(body)
             if kind == "enum":
                 variants = []
@@ -196,6 +196,35 @@ class SourceTypes:
                 else:
                     fields = [str(k) for k in range(len(items))]
                 self.structs.setdefault(name, []).append((mod, fields, rel))
+
+    @staticmethod
+    def _strip_attrs(body):
+        """remove #[...] attributes (may contain strings with brackets / angle brackets)"""
+        out, i, n = [], 0, len(body)
+        while i < n:
+            if body.startswith("#[", i) or body.startswith("#![", i):
+                j = body.index("[", i)
+                depth = 0
+                while j < n:
+                    c = body[j]
+                    if c == '"':
+                        j += 1
+                        while j < n and body[j] != '"':
+                            if body[j] == "\\":
+                                j += 1
+                            j += 1
+                    elif c == "[":
+                        depth += 1
+                    elif c == "]":
+                        depth -= 1
+                        if depth == 0:
+                            break
+                    j += 1
+                i = j + 1
+                continue
+            out.append(body[i])
+            i += 1
+        return "".join(out)
 
     @staticmethod
     def _split_items(body):
